@@ -2,6 +2,8 @@ import Helios.Model.RateLimiter
 import Helios.Model.Breaker
 import Helios.Model.LB
 import Helios.Model.Admin
+import Helios.Model.Http
+import Helios.Model.Registry
 /-
 Line-protocol driver: one operation per input line, one output line per operation.
 Core Lean only (compiled as the `driver` executable).  Every sub-model has its own
@@ -261,8 +263,100 @@ def admStep (s : DState) : List String → DState × String
     ({ s with admSt := st }, cls ++ " state=" ++ ",".intercalate (sortStrings st.names) ++ "|" ++ st.strategy)
   | _ => (s, "bad-op")
 
+def escStr (s : String) : String :=
+  if s.isEmpty then "-" else
+  String.join (s.toUTF8.toList.map (fun b =>
+    let c := Char.ofNat b.toNat
+    if c.isAlphanum || c == '-' || c == '_' || c == '.' || c == '~' || c == '$' || c == '&' || c == '+' || c == ':' || c == '=' || c == '@'
+    then String.singleton c
+    else "%" ++ String.singleton (Bytes.hexDigit (b.toNat / 16)).toUpper ++ String.singleton (Bytes.hexDigit (b.toNat % 16)).toUpper))
+
+def parsePlugin (p : String) : Option Http.Plugin :=
+  match p.splitOn "." with
+  | ["sl", mr, mp] => match mr.toNat?, mp.toNat? with | some a, some b => some (.sizeLimit a b) | _, _ => none
+  | "gz" :: _lvl :: ms :: rest =>
+    match ms.toNat? with
+    | some m => some (.gzip m ((bytesToString (unesc (".".intercalate rest))).splitOn "|" |>.filter (· != "")))
+    | none => none
+  | ["log"] => some .logging
+  | ["hdr"] => some (.headers [("X-V-App", "Helios")] [("X-V-From", "LB")])
+  | ["auth", k] => some (.auth k)
+  | ["pr", id] => id.toNat?.map .probe
+  | _ => none
+
+def parseRwOp (t : String) : Option Http.Op :=
+  match t.splitOn ":" with
+  | ["sh", k, v] => some (.setH k (bytesToString (unesc v)))
+  | ["dh", k] => some (.delH k)
+  | ["wh", c] => c.toNat?.map .wh
+  | ["w", n, sd] => match n.toNat?, sd.toNat? with | some n, some sd => some (.w (n, sd)) | _, _ => none
+  | ["fl"] => some .fl
+  | _ => none
+
+def rwStep : List String → String
+  | [chain, method, ae, key, reqlen, mode, opsTok] =>
+    let plugins := if chain == "none" then some [] else (chain.splitOn "+").mapM parsePlugin
+    let ops := (opsTok.splitOn ";").mapM parseRwOp
+    match plugins, ops, reqlen.toNat? with
+    | some ps, some ops, some rl =>
+      let hdr : Http.Hdr := (if ae == "-" then [] else [("Accept-Encoding", bytesToString (unesc ae))]) ++
+        (if key == "-" then [] else [("X-Api-Key", bytesToString (unesc key))])
+      let req : Http.Request := { method := method, hdr := hdr, bodyLen := rl,
+                                  declared := if mode == "chunked" then none else some rl }
+      -- the scripted inner handler also echoes the request header the headers plugin sets
+      let inner := fun (r : Http.Request) =>
+        let base := Http.scripted ops r
+        match base with
+        | first :: rest => if r.hdr.get "X-V-From" != "" then first :: .setH "X-V-Saw" (r.hdr.get "X-V-From") :: rest else base
+        | [] => []
+      let sv := Http.serve (fun b => 20 + b.len / 100) ps req [] inner
+      let v := (Http.Base.run { head := method == "HEAD" } sv.1).view
+      let gzPieces := v.pieces.filterMap (fun p => match p with | .gz b => some b | _ => none)
+      let rawChunks := v.pieces.filterMap (fun p => match p with | .raw c => some c | _ => none)
+      let body : Http.Body := match gzPieces with | b :: _ => b | [] => rawChunks
+      let xh := v.hdr.filter (fun kv => kv.1.startsWith "X-V-" || kv.1 == "X-Got")
+      let xhs := sortStrings (xh.map (fun kv => kv.1 ++ "=" ++ escStr kv.2))
+      let tr := sv.2.map (fun e => match e with | .enter i => s!"e{i}" | .exit i => s!"x{i}" | .inner => "in")
+      s!"status={v.status} ce={escStr (v.hdr.get "Content-Encoding")} ct={escStr (v.hdr.get "Content-Type")} xh={"&".intercalate xhs} body={body.len}:{body.hash.toNat} gz={if !gzPieces.isEmpty then 1 else if v.hdr.get "Content-Encoding" == "gzip" && body.len > 0 then 2 else 0} short={if v.short then 1 else 0} trace={",".intercalate tr}"
+    | _, _, _ => "bad-op"
+  | _ => "bad-op"
+
+def parseVal (t v : String) : Option Http.Val :=
+  let v := bytesToString (unesc v)
+  match t with
+  | "i" => v.toInt?.map .int
+  | "f" =>
+    -- truncation toward zero of a decimal like "-0.5" / "5.0" / "1024"
+    match v.splitOn "." with
+    | [w] => w.toInt?.map .float
+    | [w, _] => (if w == "-0" || w == "-" then some (Http.Val.float 0) else w.toInt?.map .float)
+    | _ => none
+  | "s" => some (.str v)
+  | "l" => some (.strs ((v.splitOn "|").filter (· != "")))
+  | "x" => some .mixed
+  | "m" => some (.smap ((v.splitOn "|").filterMap (fun e => match e.splitOn ":" with | [a, b] => some (a, b) | _ => none)))
+  | "b" => some .badmap
+  | "B" => some .bool
+  | _ => none
+
+def bcStep (spec : String) : String :=
+  let specs := (spec.splitOn "+").mapM (fun (p : String) =>
+    match p.splitOn "@" with
+    | name :: kvs =>
+      (kvs.mapM (fun (kv : String) => match kv.splitOn "=" with
+        | [k, tv] => (match (tv : String).splitOn ":" with
+          | t :: rest => (parseVal t (":".intercalate rest)).map (fun v => (k, v))
+          | _ => none)
+        | _ => none)).map (fun c => (name, c))
+    | [] => none)
+  match specs with
+  | some ss => if (Http.buildChain ss).isSome then "ok" else "err"
+  | none => "bad-op"
+
 def step (s : DState) (line : String) : DState × String :=
   match words line with
+  | "rw" :: rest => (s, rwStep rest)
+  | ["bc", spec] => (s, bcStep spec)
   | "adm" :: rest => admStep s rest
   | "rl" :: rest => rlStep s rest
   | "cb" :: rest => cbStep s rest
